@@ -204,6 +204,19 @@ def jobs(tier, seed):
         ]
         for p, a, b in cases:
             add('quad', family=fam, pdesc=p, adesc=a, bdesc=b)
+    if tier == 'thorough':
+        # richer layouts for every family: more replicas, irregular lists, limits in descending order, the same observable as limit and parameter
+        M3 = {'e|r1': [1, 2, 3, 4, 5], 'e|r2': [2, 4, 6, 8, 10, 12], 'e|r3': [1, 2, 4, 5, 7]}
+        G = {'g|r1': [3, 4, 5, 6, 7, 8]}
+        for fam in ('square', 'cubic', 'exp', 'tanh', 'invsq'):
+            for d in (M3, G, ('cov', 'cw', 1)):
+                add('root', family=fam, descs=[d])
+        for fam in ('linear2', 'ratio'):
+            for ds in ([M3, G], [CV, CV], [G, M], [F_, Ei]):
+                add('root', family=fam, descs=ds)
+        for fam, np_ in (('poly', 2), ('exp', 2), ('sin', 2), ('poly3', 3)):
+            for p, a, b in (([M3, G, E][:np_], 2.0, 0.5), ([E, E, E][:np_], Ei, E), ([G, 0.5, M][:np_], M3, G), ([CV, CV, 0.5][:np_], CV, 1.5), ([0.5, M3, 1.0][:np_], 1.5, M3)):
+                add('quad', family=fam, pdesc=p, adesc=a, bdesc=b)
     return J
 
 
